@@ -29,6 +29,9 @@ func init() {
 	reg("C15", "conc", c15concurrent)
 }
 
+// c15decorated is what an application writes to add methods of its own to a logger.
+type c15decorated struct{ slog.Logger }
+
 type valuer struct{ v stdslog.Value }
 
 func (v valuer) LogValue() stdslog.Value { return v.v }
@@ -98,6 +101,13 @@ func c15attr(r *gen.R, key string, depth int) (stdslog.Attr, gen.KV) {
 			if r.P(12) {
 				mk = key + "." + fmt.Sprintf("m%d", i) // a member whose own key starts with the group's path and a dot
 			}
+			if i == n-1 && r.P(12) {
+				// a group member named like an envelope field, holding an instant: inside a group it is an attribute like any other
+				v := mk0(r, "time")
+				as = append(as, stdslog.Time("time", v.T))
+				g.Items = append(g.Items, gen.KV{Key: "time", Val: v})
+				continue
+			}
 			a, kv := c15attr(r, mk, depth+1)
 			as = append(as, a)
 			g.Items = append(g.Items, kv)
@@ -107,6 +117,8 @@ func c15attr(r *gen.R, key string, depth int) (stdslog.Attr, gen.KV) {
 	v := mk("i64")
 	return stdslog.Int64(key, v.I), gen.KV{Key: key, Val: v}
 }
+
+func mk0(r *gen.R, kind string) gen.V { return r.Scalar(kind, gen.Options{Str: gen.StrOpt{HostilePc: 35}}) }
 
 var stdNames = map[stdslog.Level]slog.Level{stdslog.LevelDebug: slog.DebugLevel, stdslog.LevelInfo: slog.InfoLevel, stdslog.LevelWarn: slog.WarnLevel, stdslog.LevelError: slog.ErrorLevel}
 
@@ -133,8 +145,13 @@ func c15handler(c *Ctx) {
 		lg.SetLevel(preLevel)
 		is.SetDebugMode(false)
 		var under slog.Logger = lgL
-		if r.Bool() {
+		switch r.Intn(5) {
+		case 0, 1:
 			under = lg
+		case 2:
+			// an application type that embeds a Logger (a decorating logger): the handler is a handler on that logger
+			under = c15decorated{lgL}
+			c.R.Add("handlers_on_a_decorating_logger_type", 1)
 		}
 		h := slog.NewSlogHandler(under, opt)
 		is.SetDebugMode(false)
@@ -202,6 +219,17 @@ func c15handler(c *Ctx) {
 					a, kv := c15attr(r, key, depth)
 					as = append(as, a)
 					kvs = append(kvs, kv)
+				}
+				if r.P(15) {
+					// a group without members among them (only a derivation can hand one to a handler: records drop them):
+					// it contributes nothing, the attributes around it are printed as always
+					kc++
+					eg := stdslog.Group(fmt.Sprintf("d%d~", kc))
+					pos := r.Intn(len(as) + 1)
+					as = append(as[:pos:pos], append([]stdslog.Attr{eg}, as[pos:]...)...)
+					// (JSON may show it as an empty object; the text formats have nothing to show)
+					kvs = append(kvs, gen.KV{Key: fmt.Sprintf("d%d~", kc), Val: gen.V{Kind: "group", Text: "given-to-a-derivation"}})
+					c.R.Add("derivations_with_an_empty_group", 1)
 				}
 				cur = cur.WithAttrs(as)
 				chain = append(chain, layer{kvs: kvs})
@@ -475,7 +503,7 @@ func pruneEmptyGroups(kvs []gen.KV) []gen.KV {
 	for _, kv := range kvs {
 		if kv.Val.Kind == "group" {
 			kv.Val.Items = pruneEmptyGroups(kv.Val.Items)
-			if len(kv.Val.Items) == 0 {
+			if len(kv.Val.Items) == 0 && kv.Val.Text != "given-to-a-derivation" {
 				continue
 			}
 		}
@@ -550,8 +578,13 @@ func c15bridge(c *Ctx) {
 		setFormat(lg, f)
 		debugMode := r.P(30) // the sticky process-wide debug mode additionally admits Debug
 		var under slog.Logger = lgL
-		if r.Bool() {
+		switch r.Intn(5) {
+		case 0, 1:
 			under = lg
+		case 2:
+			// an application type that embeds a Logger (a decorating logger): the handler is a handler on that logger
+			under = c15decorated{lgL}
+			c.R.Add("handlers_on_a_decorating_logger_type", 1)
 		}
 		// the bridge is often built while the logger still has ANOTHER level (incl. Off): admission is decided per message
 		builtAt := L
